@@ -498,7 +498,21 @@ func (s *Set) Value(_ context.Context, t *dials.Type) (reflect.Value, error) {
 			return
 		}
 
-		// fval is always a pointer, so dereference it before converting to the final type
+		if ffield.Kind() == reflect.Ptr && fval.Type().ConvertibleTo(ffield.Type().Elem()) {
+			// a pointer to a pointer to a user-defined type (**T): the flag's
+			// *bool converts to the *T the field points to
+			ptrVal.Elem().Set(fval.Convert(ffield.Type().Elem()))
+			ffield.Set(ptrVal)
+			return
+		}
+
+		if fval.Kind() != reflect.Ptr || !fval.Type().Elem().ConvertibleTo(stripTypePtr(ffield.Type())) {
+			// e.g. a field with more than two pointer levels (***bool)
+			setErr = fmt.Errorf("value for flag %q of type %s cannot be converted to type %s of field %s",
+				f.Name, fval.Type(), stripTypePtr(ffield.Type()), fieldName)
+			return
+		}
+		// fval is a pointer, so dereference it before converting to the final type
 		cfval := fval.Elem().Convert(stripTypePtr(ffield.Type()))
 		switch ffield.Kind() {
 		case reflect.Ptr:
